@@ -31,22 +31,6 @@ theorem k_fresh_base (c : Option Nat) (t : Bool) (a : Nat) : K (setBase (newEmit
   ⟨by simp [setBase, newEmitter], ⟨by simp [setBase, newEmitter], by simp [setBase, newEmitter],
     by simp [setBase, newEmitter, potS8, potU16]⟩⟩
 
-/-- what an accepted `emitN` does to the dangling maps -/
-theorem emit_dangling (e : Em) (k : LineKind) (d : List Nat) (i l f : String) (dg : Dangling) (c : Nat)
-    (hc : e.cap = some c) (hok : (emit e k d i l f dg).2 = .ok) :
-    (emit e k d i l f dg).1.base = e.base ∧ (emit e k d i l f dg).1.code = e.code ++ d ∧
-    (emit e k d i l f dg).1.address = e.address + d.length ∧
-    (emit e k d i l f dg).1.dS8 = (if dg = .s8 then addRef e.dS8 l (e.address + d.length - 1) else e.dS8) ∧
-    (emit e k d i l f dg).1.dU16 = (if dg = .u16 then addRef e.dU16 l (e.address + d.length - 2) else e.dU16) := by
-  unfold emit at hok ⊢
-  cases hw : write e d with
-  | none => rw [hw] at hok; simp at hok
-  | some e2 =>
-    rcases write_some e e2 d hw with ⟨hn, _⟩ | ⟨c', _, _, rfl⟩
-    · rw [hc] at hn; simp at hn
-    · simp only [emitTail, emitBase]
-      cases dg <;> (repeat' split) <;> simp_all
-
 theorem step_k (e : Em) (o : Op) (c : Nat) (hk : K e) (hc : e.cap = some c) (ho : OpOK o) (hok : (step e o).2 = .ok) :
     K (step e o).1 := by
   cases o with
